@@ -104,6 +104,51 @@ def alloc_failure_check(o):
     return None
 
 
+def long_run_cases(rng):
+    """more than 65 536 bytes without any event (one long noise run; one long payload) through decode(), decode_streaming
+    and the readers: exactly one DiscardedBytes with the exact count, then the frame (recursion depth, per-call budgets
+    and 16-bit counters must not matter)"""
+    out = []
+    f = gen.frame(b"\x12\x34\x56\x78")
+    for ln, fill in ((70000, 0x55), (66000, 0x1b), (131080, 0x01)):
+        g = bytes([fill]) * ln
+        exp = "ED%d;M12345678" % ln
+        h = hx(g + f)
+        out.append(Case("fdecode " + h, "longrun-decode", dict(longrun=exp)))
+        out.append(Case("fstream - 2 " + h, "longrun-stream", dict(longrun=exp + "|-;-")))
+        for kind in ("slice", "iter", "io"):
+            out.append(Case("rd %s - x%s nbnbnbnb" % (kind, h), "longrun-rd-" + kind, dict(longrun=exp + ";-;-")))
+    # a stream that ends right after a start sequence (after noise / after an aborted transmission): the 8 start bytes are
+    # still to be reported at the end
+    for _ in range(12):
+        g = gen.clean_noise(rng, 12)
+        q = bytes(b for b in gen.payload(rng, rng.randint(0, 9)) if b != 0x1b)      # no escape may be in progress at the restart
+        for st, exp in ((g + gen.START, (["ED%d" % len(g)] if g else []) + ["ED8"]),
+                        (gen.START + gen.esc(q) + gen.START, ["ED%d" % (8 + len(gen.esc(q))), "ED8"])):
+            if (st[:-8] + gen.START).find(gen.START) != len(st) - 8 and st[:8] != gen.START:
+                continue
+            if st[:8] == gen.START and gen.esc(q).find(bytes([0x1b] * 4)) >= 0:
+                continue
+            h2 = hx(st)
+            out.append(Case("fdecode " + h2, "tail-decode", dict(longrun=";".join(exp))))
+            out.append(Case("fstream - 2 " + h2, "tail-stream", dict(longrun=";".join(exp) + "|-;-")))
+            out.append(Case("rd slice - x%s %s" % (h2, "nb" * (len(exp) + 2)), "tail-rd",
+                            dict(longrun=";".join(exp[:-1] + ["IOEof:8"]) + ";-;-")))
+    big = gen.payload(rng, 70000)
+    h = hx(gen.frame(big))
+    out.append(Case("fdecode " + h, "longrun-decode", dict(longrun="M" + hx(big))))
+    out.append(Case("fstream - 2 " + h, "longrun-stream", dict(longrun="M" + hx(big) + "|-;-")))
+    out.append(Case("rd slice - x%s nbnb" % h, "longrun-rd-slice", dict(longrun="M" + hx(big) + ";-")))
+    out.append(Case("rd io - x%s nbnb" % h, "longrun-rd-io", dict(longrun="M" + hx(big) + ";-")))
+    return out
+
+
+def long_run_check(c, o):
+    if o != c.meta["longrun"]:
+        return "long run without events: got %s expected %s" % (o[:160], c.meta["longrun"][:160])
+    return None
+
+
 def coarse_derr(o):
     return re.sub(r"EX[0-9a-f.]*", "EX", re.sub(r"EI\d+,\d+,\d,\d+,\d", "EI", o))
 
@@ -194,6 +239,11 @@ class C07(Prop):
             p = gen.payload(rng, n)
             out.append(Case("encbx %d %s" % (cap, hx(p)), "encb-giant-array", dict(p=hx(p), cap=cap)))
         out += alloc_failure_cases(rng, 16 if tier == "quick" else 200)
+        # the public Encoder::new over a source that is not fused (yields again after its first None)
+        for _ in range(20 if tier == "quick" else 300):
+            a = gen.payload(rng, rng.randint(0, 24))
+            b = gen.payload(rng, rng.randint(1, 12))
+            out.append(Case("encu %s %s" % (hx(a), hx(b)), "enc-unfused-source", dict(encu=hx(a))))
         if tier == "thorough":
             for b in gen.small_bodies(6):
                 out.append(Case("enci 1 " + hx(b), "small-enci", dict(p=hx(b))))
@@ -213,6 +263,13 @@ class C07(Prop):
                     why = alloc_failure_check(o)
                     if why:
                         bad.append(dict(case=c.line, why="%s build: %s" % (prof, why)))
+                        break
+                continue
+            if "encu" in c.meta:
+                exp = hx(gen.frame(unhx(c.meta["encu"])))
+                for prof, o in both(dbg, rel, i):
+                    if o != exp:
+                        bad.append(dict(case=c.line, why="%s build: encoder over an unfused source: got %s expected the frame of the bytes before the first None %s" % (prof, o[:200], exp[:200])))
                         break
                 continue
             if "p" not in c.meta:
@@ -245,7 +302,7 @@ class C01(Prop):
                  "forall k, di_extra cap k (fst (di_all cap (length (frame p) + 2) (di_new (frame p)))) = repeat None k) /\\ "
                  "(forall kind, kind <> KEh -> snd (rd_all cap (length (frame p) + 2) (rd_new kind (map SByte (frame p)))) = [RdOk p])"),
                 ("C01_injective", "forall p q : list N, frame p = frame q -> p = q")]
-    level_text = ("Theorem C01_roundtrip (Coq, closed): for every payload and every buffer holding |p| bytes, both encoders yield frame p and "
+    level_text = ("Theorems C01_roundtrip, C01_injective (Coq, closed; framing is injective): for every payload and every buffer holding |p| bytes, both encoders yield frame p and "
                   "the push decoder, decode(), decode_streaming and the slice/iterator/io::Read readers yield exactly p at the last byte "
                   "and nothing else (forward simulation along the encoder loop incl. the 8-bit pad counter, zero cache and re-alignment). "
                   "Oracle: real encoders -> real front-ends on payloads up to 8 KiB (thorough 64 KiB) with capacity exactly |p|.")
@@ -253,6 +310,9 @@ class C01(Prop):
     rule = ("payloads from G-PAY; per payload the real encoders (Vec + iterator) produce the frame, which is fed to the push "
             "decoder (+finalize), decode() and decode_streaming (+2 extra next()) with a buffer of capacity >= |p| from the "
             "menu (often exactly |p|) or Vec. non-trivial = payload non-empty")
+
+    def project(self, case, out):
+        return "" if case.line.startswith("rtx ") else coarse_derr(out)
 
     def cases(self, tier, rng):
         n = 1200 if tier == "quick" else 10000
@@ -279,6 +339,21 @@ class C01(Prop):
                 cut = rng.randint(1, len(f) - 1)
                 rcap = cap if cap in ("-", "64", "8192") or cap in [str(x) for x in RD_CAPS] else "-"
                 out.append(Case("rd io %s I,x%s,I,I,x%s,I nbnbnb" % (rcap, hx(f[:cut]), hx(f[cut:])), "io-interrupted", dict(rt_rd=hx(p))))
+        # payloads beyond 64 KiB and 1 MiB in the growable buffer (no size limit may hide in it); the larger one is not
+        # run through the model (suite rtx)
+        p = gen.payload(rng, 70000)
+        out.append(Case("rt - %s" % hx(p), "rt-vec-70k", dict(p=hx(p))))
+        p = gen.payload(rng, (1 << 20) + 37)
+        out.append(Case("rtx - %s" % hx(p), "rt-vec-1M", dict(p=hx(p))))
+        # frames whose last byte is 0x00 (checksum high byte) through the slice reader: nothing may be trimmed
+        k = 0
+        while k < 6:
+            p = gen.payload(rng, rng.randint(1, 12))
+            f = gen.frame(p)
+            if f[-1] == 0:
+                k += 1
+                out.append(Case("rd slice - x%s nbnbnb" % hx(f), "slice-frame-ending-00", dict(rt_rd=hx(p))))
+                out.append(Case("rd slice default x%s nbnbnb" % hx(f), "slice-frame-ending-00", dict(rt_rd=hx(p))))
         if tier == "thorough":
             for b in gen.small_bodies(7):
                 c = gen.cap_at_least(len(b))
@@ -305,7 +380,7 @@ class C01(Prop):
                         bad.append(dict(case=c.line, why="%s build: round trip does not yield exactly the payload: got %s expected %s" % (prof, o[:300], exp[:300])))
                         break
                 continue
-            if not c.line.startswith("rt "):
+            if not (c.line.startswith("rt ") or c.line.startswith("rtx ")):
                 continue
             p = c.line.split()[2]
             for prof, o in both(dbg, rel, i):
@@ -397,7 +472,8 @@ class C02(Prop):
                  "(forall cap kind, kind <> KEh -> In (RdOk m) (snd (rd_all cap (length s + 2) (rd_new kind (map SByte s)))) -> "
                  "exists pre suf, s = pre ++ frame m ++ suf)")]
     suite_names = "S-DEC/S-FRONT (dec, fdecode, fstream)"
-    level_text = ("Theorem C02_sound (Coq, closed under the global context): for every capacity and every history of push_byte/finalize/"
+    level_text = ("Theorems C02_sound, C02_frontends (Coq, closed; C02_frontends: a payload reported by decode(), decode_streaming or a "
+                  "reader occurs canonically framed in the stream it was given). C02_sound: for every capacity and every history of push_byte/finalize/"
                   "reset/from_buf, a reported payload m implies the bytes pushed since the last boundary end with frame m - unbounded in "
                   "stream length, for any attacker-chosen bytes. Correspondence model<->code on adversarial streams (debug+release) and the "
                   "same statement evaluated on the real decoder's outputs with the extracted spec.")
@@ -450,7 +526,7 @@ class C02(Prop):
 # C05 transport totality
 # ==========================================================================================
 def has_panic(o):
-    return bool(re.search(r"(^|[;:|\[{(!])P($|[;|\]})])", o)) or "HARNESS-ERROR" in o or "NO-OUTPUT" in o or o == "panic"
+    return bool(re.search(r"(^|[;:|\[{(!])P($|[;|\]})])", o)) or "HARNESS-ERROR" in o or "NO-OUTPUT" in o or o == "panic" or o.startswith("ABORT")
 
 
 class C05(Prop):
@@ -498,6 +574,7 @@ class C05(Prop):
             out.append(Case("fdecode " + hx(bytes([0x55]) * ln + f), "longnoise"))
             out.append(Case("rd io 8 x%s,x%s nbnbnb" % (hx(bytes([0x55]) * ln), hx(f)), "longnoise"))
         out += reader_cases(rng, 400 if tier == "quick" else 4000)
+        out += long_run_cases(rng)
         out += alloc_failure_cases(rng, 12 if tier == "quick" else 150)
         return out
 
@@ -530,7 +607,9 @@ RD_CAPS = ["-", "default", "8192", "1024", "256", "64", "32", "16", "8", "4", "0
 
 
 def model_line(line):
-    if line.startswith("encbx ") or line.startswith("alloclim "):
+    if line.startswith("encu "):
+        return "frame " + line.split(" ")[1]      # the specification: the frame of the bytes before the first None
+    if line.startswith("encbx ") or line.startswith("alloclim ") or line.startswith("rtx "):
         return "crc ."           # not run through the model (see C07.cases / alloc_failure_cases)
     if line.startswith("rd "):
         line = line.replace(" default ", " 8192 ")
@@ -550,7 +629,7 @@ def transmission(rng, sml=True, maxpay=40, bad=0.15, with_noise=0.5):
     for _ in range(rng.randint(0, 3)):
         g = gen.clean_noise(rng, 10) if rng.random() < with_noise else b""
         if sml and rng.random() < 0.8:
-            d, text, evs, _ = gen.gen_file(rng, rng.choice([1, 2, 3]))
+            d, text, evs, _ = gen.gen_file(rng, rng.choice([1, 2, 3, 1, 2, 3, 0]))       # also the empty file (empty payload)
         else:
             d, text, evs = gen.payload(rng, rng.randint(0, maxpay)), None, None
         if rng.random() < bad:
@@ -1131,6 +1210,7 @@ class C17(Prop):
                 out.append(Case("dec - x%s,F" % hx(bytes([fill]) * ln), "longnoise"))
                 out.append(Case("dec - x%s,R" % hx(bytes([fill]) * ln), "longnoise"))
         out += io_count_cases(rng, 500 if tier == "quick" else 5000)
+        out += long_run_cases(rng)
         return out
 
     def project(self, case, out):
@@ -1155,6 +1235,8 @@ class C17(Prop):
                     why = tiles(c.line, o)
                 elif "iocount" in c.meta:
                     why = io_count_check(c, o)
+                elif "longrun" in c.meta:
+                    why = long_run_check(c, o)
                 if why:
                     bad.append(dict(case=c.line, why="%s build: %s" % (prof, why)))
                     break
@@ -1436,6 +1518,32 @@ def list_count_cases(rng):
                     data = pre + gen.close_message(rng, ch)
                     out.append(Case("parse " + hx(data), "mut:listcount-last", dict(d=data)))
         gen.STYLE.clear(); gen.STYLE.update(saved)
+        # the value-list TLF replaced by a primitive TLF spelling the same number (72 -> 03 / 43 / 53 / 63)
+        for k in (1, 2, 3):
+            for ty in (0, 4, 5, 6):
+                m = gen.gen_message(rng, "list", nentries=k)
+                ch = list(m["chunks"])
+                ch[len(ch) - 2 - 8 * k - 1] = bytes([(ty << 4) | (k + 1)])
+                data = gen.close_message(rng, ch)
+                out.append(Case("parse " + hx(data), "mut:listtlf-type", dict(d=data)))
+        # a boolean value whose TLF has the boolean type bits but another length nibble (41, 43, 4f) followed by one byte
+        for nib in (1, 3, 4, 15):
+            for bv in (0, 1):
+                m = gen.gen_message(rng, "list", nentries=1)
+                ch = list(m["chunks"])
+                ch[len(ch) - 2 - 8 + 6] = bytes([0x40 | nib, bv])         # the entry's value field
+                data = gen.close_message(rng, ch)
+                out.append(Case("parse " + hx(data), "mut:bool-length", dict(d=data)))
+        # every prefix of a few small valid files, at least one of them with the vendor time encoding (65 xx xx xx xx)
+        files = []
+        while len(files) < 4:
+            data, text, evs, msgs = gen.gen_file(rng, rng.choice([1, 2]))
+            has_vendor = any(c[:1] == b"\x65" and len(c) == 5 for m in msgs for c in m["chunks"])
+            if len(data) <= 160 and (has_vendor or len(files) >= 2):
+                files.append(data)
+        for data in files:
+            for cut in range(len(data)):
+                out.append(Case("parse " + hx(data[:cut]), "mut:every-prefix", dict(d=data[:cut])))
         for huge in ("ff8f8f8f8f8f8f0f", "ff8f8f8f8f8f8f0e"):
             for _ in range(3):
                 m = gen.gen_message(rng, "list", nentries=0)
@@ -1515,7 +1623,20 @@ class C03(ParserProp):
             "non-trivial = at least one message")
 
     def cases(self, tier, rng):
-        return sml_valid_cases(rng, 1500 if tier == "quick" else 20000) + real_cases(rng)
+        return sml_valid_cases(rng, 1500 if tier == "quick" else 20000) + real_cases(rng) + self.big_strings(rng)
+
+    @staticmethod
+    def big_strings(rng):
+        """valid files with byte strings of 65 535 / 65 536 / 70 000 bytes (5-byte TLF): nothing 16-bit may hide in the parsers"""
+        out = []
+        for n in (65535, 65536, 70000):
+            m = gen.gen_message(rng, "close")
+            ch = list(m["chunks"])
+            big = bytes(rng.getrandbits(8) for _ in range(n))
+            ch[-1] = gen.tlf_bytes(0, n + 5, 5) + big
+            d = gen.close_message(rng, ch)
+            out.append(Case("parse " + hx(d), "valid-big-string", dict(d=d)))
+        return out
 
     def nontrivial(self, case, out):
         return out.startswith("ok:(")
@@ -1848,8 +1969,18 @@ class C12(ParserProp):
                 lens = [0, 1, 2, 4, 8, 16, 20]
                 if 0 <= fit <= 64:
                     lens = [fit] * 10 + lens
+                elif fit < 0:
+                    lens = [0] * 6 + lens          # "negative" length: a parser that saturates would read an empty value
                 d = tlf_probe_value(t, bytes(rng.getrandbits(8) for _ in range(rng.choice(lens))))
                 out.append(Case("parse " + hx(d), "tlf-value", dict(d=d)))
+                if (t[0] >> 4) & 7 == 4:
+                    # boolean type bits with any length nibble: one data byte, so that a parser that only looks at the type stays in step
+                    d = tlf_probe_value(t, bytes([rng.choice([0, 1, 0xff])]))
+                    out.append(Case("parse " + hx(d), "tlf-value", dict(d=d)))
+                if fit < 0 or (0 <= fit <= 4 and len(t) >= 2):
+                    # always also: no data at all / exactly the spelled amount
+                    d = tlf_probe_value(t, bytes(rng.getrandbits(8) for _ in range(max(0, fit))))
+                    out.append(Case("parse " + hx(d), "tlf-value", dict(d=d)))
         # integers: width x signedness x leading byte x tails
         for ty in (5, 6):
             for k in range(1, 10):
@@ -2158,7 +2289,7 @@ class C11(Prop):
                     j = min(len(s), i + rng.randint(1, 12))
                     toks.append("x" + hx(s[i:j]))
                     i = j
-                meth = "n" if kind == "io" else "r"
+                meth = rng.choice("nN") if kind == "io" else rng.choice("rR")       # also next_nb / read_nb
                 calls_f = (meth + "b") * (base_calls + nw)
                 calls_0 = (meth + "b") * base_calls
                 out.append(Case("rd %s %s %s %s" % (kind, cap, ",".join(toks) or "x.", calls_f), "wb-faulty", dict(grp=g, role="faulty", nw=nw, kind=kind)))
@@ -2169,8 +2300,9 @@ class C11(Prop):
                 a, b = s[:k], s[k:]
                 meth = rng.choice("nN") if kind == "io" else rng.choice("rR")
                 calls = (meth + "b") * base_calls
-                ev_full = ",".join(x for x in ["x" + hx(a) if a else "", "O", "x" + hx(b) if b else ""] if x)
-                out.append(Case("rd %s %s %s %s" % (kind, cap, ev_full, calls), "other-full", dict(grp=g, role="full", a=a, kind=kind)))
+                nother = 2 if rng.random() < 0.3 else 1          # also two failing reads in a row
+                ev_full = ",".join(x for x in ["x" + hx(a) if a else ""] + ["O"] * nother + ["x" + hx(b) if b else ""] if x)
+                out.append(Case("rd %s %s %s %s" % (kind, cap, ev_full, calls + "nb" * 0), "other-full", dict(grp=g, role="full", a=a, kind=kind, nother=nother)))
                 out.append(Case("rd %s %s %s %s" % (kind, cap, ("x" + hx(b)) if b else "x.", calls), "other-rest", dict(grp=g, role="rest", kind=kind)))
                 out.append(Case("dec %s %s" % ("8192" if cap == "default" else cap, ("x" + hx(a) + ",R") if a else "R"), "other-count", dict(grp=g, role="count")))
             else:
@@ -2210,16 +2342,20 @@ class C11(Prop):
                     cl = outs[d["clean"]].split(";")
                     nw = cases[d["faulty"]].meta["nw"]
                     kind = cases[d["faulty"]].meta["kind"]
-                    wb = [x for x in fa if x == "IOWouldBlock:0"]
-                    rest = [x for x in fa if x != "IOWouldBlock:0"]
-                    if kind == "io":
+                    # a would-block is IoErr(WouldBlock, 0) from read/next and nb::Error::WouldBlock ("WB") from the nb variants
+                    wb = [x for x in fa if x in ("IOWouldBlock:0", "WB")]
+                    rest = [x for x in fa if x not in ("IOWouldBlock:0", "WB")]
+                    meth_nb = cases[d["faulty"]].line.split(" ")[-1][:1] in "NR"
+                    if meth_nb and "IOWouldBlock:0" in fa:
+                        why = "read_nb/next_nb reported a would-block as a hard error instead of nb::Error::WouldBlock: %s" % fa[:6]
+                    elif kind == "io":
                         if len(wb) != nw:
                             why = "%d would-block conditions surfaced %d times" % (nw, len(wb))
                         elif trim(rest) != trim(cl):
                             why = "would-block/interrupted changed the decoded results: %s vs fault-free %s" % (trim(rest)[:6], trim(cl)[:6])
                     else:
                         # embedded-hal source: end of input also blocks; compare the non-would-block results
-                        if trim(rest) != trim([x for x in cl if x != "IOWouldBlock:0"]):
+                        if trim(rest) != trim([x for x in cl if x not in ("IOWouldBlock:0", "WB")]):
                             why = "would-block changed the decoded results: %s vs fault-free %s" % (rest[:6], cl[:6])
                     where = cases[d["faulty"]].line + " || " + cases[d["clean"]].line
                 elif "full" in d:
@@ -2228,14 +2364,17 @@ class C11(Prop):
                     cnt = parse_events(outs[d["count"]])
                     where = cases[d["full"]].line + " || " + cases[d["rest"]].line
                     ks = [k for k, x in enumerate(fu) if x.startswith("IOOther:")]
-                    if len(ks) != 1:
-                        why = "one Other fault surfaced %d times: %s" % (len(ks), fu[:8])
+                    nother = cases[d["full"]].meta.get("nother", 1)
+                    if len(ks) != nother:
+                        why = "%d Other fault(s) surfaced %d times: %s" % (nother, len(ks), fu[:8])
+                    elif nother == 2 and (ks[1] != ks[0] + 1 or fu[ks[1]] != "IOOther:0"):
+                        why = "the second of two consecutive read errors was not reported as IoErr(Other, 0): %s" % fu[ks[0]:ks[0] + 3]
                     else:
                         k = ks[0]
                         n_expected = int(cnt[-1][2]) if cnt and cnt[-1][1] == "R" else None
                         if n_expected is not None and fu[k] != "IOOther:%d" % n_expected:
                             why = "count attached to the I/O error is %s, but %d bytes were pending" % (fu[k], n_expected)
-                        elif trim(fu[k + 1:]) != trim(re_):
+                        elif trim(fu[ks[-1] + 1:]) != trim(re_):
                             why = "after an I/O error reading does not continue like a fresh reader: %s vs %s" % (fu[k + 1:k + 7], re_[:6])
                 elif "eof" in d:
                     eo = outs[d["eof"]].split(";")
